@@ -180,10 +180,16 @@ func c06Fresh2Form(form, fn, x, y string) string {
 		if form == "carmapcar" {
 			return fmt.Sprintf("(car (mapcar (lambda (&rest p) p) %s %s))", x, y)
 		}
+		if form == "carmapcarlist" {
+			return fmt.Sprintf("(car (mapcar #'list %s %s))", x, y)
+		}
 		return fmt.Sprintf("(let (keep) (mapc (lambda (&rest p) (unless keep (setq keep p))) %s %s) keep)", x, y)
 	case "lastpair":
 		if form == "lastmapcar" {
 			return fmt.Sprintf("(car (last (mapcar (lambda (&rest p) p) %s %s)))", x, y)
+		}
+		if form == "lastmapcarlist" {
+			return fmt.Sprintf("(car (last (mapcar #'list %s %s)))", x, y)
 		}
 		return fmt.Sprintf("(let (keep) (mapc (lambda (&rest p) (setq keep p)) %s %s) keep)", x, y)
 	case "takemin":
@@ -1014,6 +1020,7 @@ var c06Templates = []c06Tmpl{
 	c06F("mapcanrest", "fresh2", "interleave", "$1", "$2"), c06F("mapcanlist", "fresh2", "interleave", "$1", "$2"), c06F("mapcan2", "fresh2", "interleave", "$1", "$1"),
 	c06F("mapckeep", "fresh2", "firstpair", "$1", "$2"), c06F("carmapcar", "fresh2", "firstpair", "$1", "$2"), c06F("mapckeep", "fresh2", "firstpair", "$1", "$1"),
 	c06F("mapckeeplast", "fresh2", "lastpair", "$1", "$2"), c06F("lastmapcar", "fresh2", "lastpair", "$1", "$1"),
+	c06F("carmapcarlist", "fresh2", "firstpair", "$1", "$2"), c06F("lastmapcarlist", "fresh2", "lastpair", "$1", "$2"),
 	c06F("", "fresh2", "takemin", "$1", "$2"), c06F("", "fresh2", "takemin", "$2", "$1"), c06F("", "fresh2", "union", "$1", "$2"), c06F("", "fresh2", "union", "$1", "$1"),
 	c06F("", "revappend", "$1", "$2"), c06F("", "revappend", "$1", "nil"), c06F("", "revappend", "nil", "$1"), c06F("", "revappend", "$1", "$1"),
 	c06F("lambda", "applyrest", "$1"), c06F("defun", "applyrest", "$1"), c06F("mapl", "applyrest", "$1"),
@@ -1899,7 +1906,12 @@ func runC06(c *lib.Ctx) {
 	// composite generators avoid the construct of the listed findings (never excused there)
 	avoidListed := c.Findings.Listed(c.Prop, "creator=")
 	c.Ev.Coverage["composite_avoids_second_in_place_extension"] = avoidListed
-	nRandom := c.Scale(40000, 400000)
+	nRandom := c.Scale(40000, 300000)
+	if c.GenBroken != "" {
+		// a proof obligation over the regenerated code no longer checks: search harder for a failing input
+		nRandom *= 3
+		c.Ev.Coverage["witness_search_for_broken_obligation"] = c.GenBroken
+	}
 	batch := 20000
 	total := 0
 	for total < nRandom {
@@ -1944,6 +1956,8 @@ func runC06(c *lib.Ctx) {
 		c.Ev.Coverage["exhaustive_histories"] = exh
 		c.Ev.Coverage["exhaustive_alphabets"] = map[string]int{"depth2": len(a2), "depth3": len(a3), "depth4": len(a4)}
 	}
+	c.Ev.Coverage["k_gen"] = "Gen/ListProgs.lean: the Call/Place methods of 24 list functions translated from the Go source into SliceProg programs; Theorems/GenC06, GenC06b prove for all lists and indices that each returns the value-level model's value, never faults, writes no argument storage unless destructive, and returns fresh storage or a tail of the argument. Gen/ListUses.lean: flow-insensitive uses of argument storage in 19 further functions (remove/delete loops, member, the mapping functions, concatenate, coerce); Theorems/GenC06c: no write, no window"
+	c.Ev.Coverage["operation_forms"] = len(c06Templates)
 	c.Ev.Coverage["traces_validated_against_impl"] = c.Ev.Coverage["steps_checked"]
 	c.Ev.Coverage["rule"] = "case = operation history over a pool of named lists; after every step the result and the contents of every live variable are compared: result = value-level model on the implementation's current argument values; a variable may differ from its previous print only if the cons-cell heap model says it may; extending operations never overwrite. non-trivial = the history applies a destructive or extending operation to a list that has another live reference; distinct by history text"
 }
